@@ -425,6 +425,23 @@ func runValue(c *core.Child, env *build.Env, m *model.Schema, f *model.FieldDef,
 	if !conformant {
 		return
 	}
+	// ---- route E: the same list value as a typed Go slice ([]string, []int,
+	// [][]int …, also behind a pointer) instead of []interface{}
+	if tv, ok := typedVariant(val); ok {
+		for vi, v2 := range []interface{}{tv, ptrTo(tv)} {
+			var r2 *harness.Run
+			vars2 := map[string]interface{}{"x": v2}
+			if c.Guard("panic:Do", textVar, func() { r2 = harness.Do(env, textVar, "", vars2, nil, nil) }) {
+				break
+			}
+			c.Eval(1)
+			c.Feature("route:typed-go-slice")
+			a2, _ := argsAt(r2, f.Name)
+			if harness.CanonArgs(a2) != harness.CanonArgs(gotArgs) {
+				report("typed-slice-vs-generic", textVar, "metamorphic:typed-slice-vs-generic", fmt.Sprintf("the value as %T (variant %d) gives resolver args %s, as []interface{} it gives %s (response %s)", v2, vi, harness.CanonArgs(a2), harness.CanonArgs(gotArgs), respcmp.Canon(r2.Result)))
+			}
+		}
+	}
 	c.Sample("routes", map[string]interface{}{"type": tn, "value": val, "arg_default": arg.Default, "resolver_args": harness.CanonArgs(gotArgs)})
 	// ---- route B: the same value as an inline literal
 	lit, ok := literalOf(m, t, val)
@@ -542,6 +559,112 @@ func subscribeRoute(c *core.Child, env *build.Env, f *model.FieldDef, tn string,
 			report("subscription", text, "metamorphic:subscription-resolver-vs-query", fmt.Sprintf("the subscription field resolver received %s, the query resolver received %s", got, harness.CanonArgs(want)))
 		}
 	}
+}
+
+// typedVariant converts a homogeneous []interface{} (of strings, ints, bools,
+// float64s or of such lists) into the corresponding typed Go slice.
+func typedVariant(v interface{}) (interface{}, bool) {
+	xs, ok := v.([]interface{})
+	if !ok || len(xs) == 0 {
+		return nil, false
+	}
+	switch xs[0].(type) {
+	case string:
+		out := make([]string, 0, len(xs))
+		for _, x := range xs {
+			s, ok := x.(string)
+			if !ok {
+				return nil, false
+			}
+			out = append(out, s)
+		}
+		return out, true
+	case int:
+		out := make([]int, 0, len(xs))
+		for _, x := range xs {
+			s, ok := x.(int)
+			if !ok {
+				return nil, false
+			}
+			out = append(out, s)
+		}
+		return out, true
+	case bool:
+		out := make([]bool, 0, len(xs))
+		for _, x := range xs {
+			s, ok := x.(bool)
+			if !ok {
+				return nil, false
+			}
+			out = append(out, s)
+		}
+		return out, true
+	case float64:
+		out := make([]float64, 0, len(xs))
+		for _, x := range xs {
+			s, ok := x.(float64)
+			if !ok {
+				return nil, false
+			}
+			out = append(out, s)
+		}
+		return out, true
+	case map[string]interface{}:
+		out := make([]map[string]interface{}, 0, len(xs))
+		for _, x := range xs {
+			s, ok := x.(map[string]interface{})
+			if !ok {
+				return nil, false
+			}
+			out = append(out, s)
+		}
+		return out, true
+	case []interface{}:
+		// [][]T when every inner list converts to the same element type
+		var outS [][]string
+		var outI [][]int
+		for _, x := range xs {
+			in, ok := typedVariant(x)
+			if !ok {
+				return nil, false
+			}
+			switch t := in.(type) {
+			case []string:
+				outS = append(outS, t)
+			case []int:
+				outI = append(outI, t)
+			default:
+				return nil, false
+			}
+		}
+		if len(outS) == len(xs) {
+			return outS, true
+		}
+		if len(outI) == len(xs) {
+			return outI, true
+		}
+	}
+	return nil, false
+}
+
+func ptrTo(v interface{}) interface{} {
+	switch t := v.(type) {
+	case []string:
+		return &t
+	case []int:
+		return &t
+	case []bool:
+		return &t
+	case []float64:
+		return &t
+	case []map[string]interface{}:
+		return &t
+	case [][]string:
+		return &t
+	case [][]int:
+		return &t
+	}
+	return v
 }
 
 // hostile numeric / string literal texts: whether each is a valid literal of
